@@ -12,7 +12,10 @@ def main():
 
     with open(sys.argv[1]) as fh:
         cfg = json.load(fh)
+    rng_log = crash.install_rng_logger()
     r = crash.run_cfg(cfg, os.getcwd())
+    with open(os.path.join(os.path.dirname(sys.argv[1]), "rnglog.json"), "w") as fh:
+        json.dump(rng_log, fh)
     if r["error"]:
         print(r["error"], file=sys.stderr)
         return 3
